@@ -89,3 +89,9 @@ def swallow_then_square(x):
                 time.sleep(0.01)
         except Exception:
             pass
+
+
+def sleep_for(s):
+    import time
+    time.sleep(s)
+    return s
